@@ -293,6 +293,7 @@ func checkC06(p *Program, r *Report) {
 	checkDelegatedStates(p, r, models)
 	checkRunLengthIndependence(p, r, models, "R06.6", true)
 	checkBufferRefill(p, r, models)
+	checkEntryClamps(p, r, models)
 	r.Floor("R06.1", "stateful kernels", nStateful, 17)
 	r.Floor("R06.3", "wrappers", nWrap, 41)
 	checkPackExtract(p, r, models)
